@@ -20,7 +20,15 @@ META = {
                   "which is farther than any index left out, query_radius returns exactly the indices within the radius. "
                   "Leaf test, split predicate, degenerate-split fallback, axis cycling, box update, box excess, both prune "
                   "predicates, the eviction test, the result order, whether the constructor copies its input, and the PriorityItem comparator / PriorityQueue plumbing are regenerated from the source on every run; the "
-                  "loops are tied by kernel-evaluated correspondence batches (whole node array, query answers). LIMIT: arithmetic is "
+                  "loops are tied by kernel-evaluated correspondence batches (whole node array, query answers, and that every "
+                  "recorded pivot is one the strategy's generated rule allows: median / median of a <=50 sample / element). Further "
+                  "theorems (round 7): the generated split makes progress for ANY pivot (C11_split_progress: both sides non-empty, "
+                  "separated by the split value - why fast and random terminate too), every strategy's pivot lies among the leaf's "
+                  "coordinates (C11_pivot_within_bounds), no leaf exceeds max_leaf_size (C11_leaf_size_bound), children come after "
+                  "their parent in the node array (C11_children_after_parent), the radius answer is a permutation of the filtered "
+                  "index range (C11_radius_permutation), k >= n returns every point once, nearest first "
+                  "(C11_knn_all_points_when_k_ge_n). Tested only, not proved: the RNG / numpy median themselves (their outputs are "
+                  "checked against the rule per case), absence of side effects on the caller's arrays and other queues, binary64 effects. LIMIT: arithmetic is "
                   "exact (integers, squared distances); the implementation orders by binary64 sqrt distances, so points whose true "
                   "distances differ by less than rounding resolution are ties for it (tested, not proved: a rounding class with "
                   "coordinates around 2^20..2^40 is checked by an exact-integer oracle up to 2^-46 relative).",
@@ -608,8 +616,8 @@ def case_term(case, obs):
     knn = coq_list(["(%s, %d%%nat, %s)" % (zlistp(Q), k, natlist(ans)) for (Q, k), ans in zip(case["knn"], obs["knn"])])
     rad = coq_list(["(%s, %s, %s)" % (zlistp(Q), zl(m), natlist(ans)) for (Q, m), ans in zip(case["rad"], obs["rad"])])
     now = coq_list([zlistp(p) for p in obs["now"]])
-    return "(mkcase %d%%nat %d%%nat %s %s %s %s %s %s)" % (
-        case["dim"], case["mls"], pts, now, zlistp(obs["pivots"]), coq_list([node_term(nd) for nd in obs["nodes"]]), knn, rad)
+    return "(mkcase %d%%nat %d%%nat %s %s %s %s %s %s %s)" % (
+        case["dim"], case["mls"], {"balanced": "Balanced", "fast": "Fast", "random": "Random"}[case["strategy"]], pts, now, zlistp(obs["pivots"]), coq_list([node_term(nd) for nd in obs["nodes"]]), knn, rad)
 
 
 def encodable(obs):
